@@ -257,8 +257,30 @@ pub fn run_program<B: BodyBuf>(p: &Program, rep: &mut Report) {
     let sp = sched.spawner.clone();
     sched.spawn("s:conn", apps::server_main::<B>(net.clone(), sopts, probe.clone(), sp.clone()));
     sched.spawn("c:conn", apps::client_main::<B>(net.clone(), copts, probe.clone(), sp));
-    let end = sched.run(6_000_000);
+    // run in slices: what has been written so far is checked on the way, so that a writer that
+    // has gone wrong (e.g. replays header bytes for ever) is reported from its output long before
+    // the step cap - the receiving h3 gets slower with every byte of garbage it buffers
+    let wt = p.scfg.webtransport == Some(true);
+    const SLICE: u64 = 50_000;
+    const SLICES: u64 = 120;
+    let mut end = RunEnd::StepCap;
+    for slice in 0..SLICES {
+        end = sched.run_slice(SLICE);
+        if end != RunEnd::StepCap {
+            break;
+        }
+        rep.count("online_wire_checks");
+        let n = lock(&net);
+        for side in [CLIENT, SERVER] {
+            let (finds, _) = wire::check_output(&n, side, wire::WireOpts { webtransport: wt, allow_push: false });
+            if let Some(f) = finds.first() {
+                viol(rep, &format!("wire[{}]", f.rule), format!("{} stream {} (after {} steps, still running): {}", sim::side_name(side), f.stream, (slice + 1) * SLICE, f.detail), &case);
+                return;
+            }
+        }
+    }
     if end == RunEnd::StepCap {
+        sched.note_step_cap(SLICE * SLICES);
         rep.inconclusive("step cap reached");
         return;
     }
@@ -268,7 +290,6 @@ pub fn run_program<B: BodyBuf>(p: &Program, rep: &mut Report) {
     }
     let evs = probe.events();
     let n = lock(&net);
-    let wt = p.scfg.webtransport == Some(true);
     for side in [CLIENT, SERVER] {
         let (finds, st) = wire::check_output(&n, side, wire::WireOpts { webtransport: wt, allow_push: false });
         rep.add("wire_frames_parsed", st.frames);
